@@ -43,18 +43,18 @@ func sf(names ...string) []*SubField {
 	}
 	return out
 }
-func sc(j *fedlab.J) *FVal         { return &FVal{Kind: fedlab.FSc, JSON: j} }
-func ref(t, k string) *FVal        { return &FVal{Kind: fedlab.FRef, Type: t, Key: k} }
-func lst(xs ...*FVal) *FVal        { return &FVal{Kind: fedlab.FLst, Items: xs} }
-func echo() *FVal                  { return &FVal{Kind: fedlab.FEcho} }
-func nullref() *FVal               { return &FVal{Kind: fedlab.FNullRef} }
-func lookup(t, a string) *FVal     { return &FVal{Kind: fedlab.FLookup, Type: t, Arg: a} }
-func req(fs ...string) *FVal       { return &FVal{Kind: fedlab.FReq, Req: fs} }
-func str(s string) *FVal           { return sc(fedlab.JS(s)) }
-func num(n int) *FVal              { return sc(fedlab.JNumRaw(fmt.Sprint(n))) }
-func null() *FVal                  { return sc(fedlab.JN()) }
-func vstr(s string) *fedlab.Value  { return &fedlab.Value{Kind: fedlab.VStr, Raw: s} }
-func vint(n int) *fedlab.Value     { return &fedlab.Value{Kind: fedlab.VInt, Raw: fmt.Sprint(n)} }
+func sc(j *fedlab.J) *FVal        { return &FVal{Kind: fedlab.FSc, JSON: j} }
+func ref(t, k string) *FVal       { return &FVal{Kind: fedlab.FRef, Type: t, Key: k} }
+func lst(xs ...*FVal) *FVal       { return &FVal{Kind: fedlab.FLst, Items: xs} }
+func echo() *FVal                 { return &FVal{Kind: fedlab.FEcho} }
+func nullref() *FVal              { return &FVal{Kind: fedlab.FNullRef} }
+func lookup(t, a string) *FVal    { return &FVal{Kind: fedlab.FLookup, Type: t, Arg: a} }
+func req(fs ...string) *FVal      { return &FVal{Kind: fedlab.FReq, Req: fs} }
+func str(s string) *FVal          { return sc(fedlab.JS(s)) }
+func num(n int) *FVal             { return sc(fedlab.JNumRaw(fmt.Sprint(n))) }
+func null() *FVal                 { return sc(fedlab.JN()) }
+func vstr(s string) *fedlab.Value { return &fedlab.Value{Kind: fedlab.VStr, Raw: s} }
+func vint(n int) *fedlab.Value    { return &fedlab.Value{Kind: fedlab.VInt, Raw: fmt.Sprint(n)} }
 
 // Fixed is one fixed configuration with a universe generator.
 type Fixed struct {
@@ -363,12 +363,65 @@ func uniABC(r *common.Rand) *fedlab.Universe {
 	return u
 }
 
+// ---------------------------------------------------------------- "hop"
+// A key translation with TWO equally good intermediate hops: Item.price lives in "pricing" (key
+// upc), the root fields in "catalog" (key id); "bridge1" and "bridge2" know both keys.  Which
+// bridge the planner takes is a convention (configuration order) -- but it has to be the same one
+// every time the operation is planned.
+func cfgHOP() *fedlab.Config {
+	super := &fedlab.Schema{Query: "Query", Types: []*TypeDef{
+		{Kind: fedlab.KObject, Name: "Query", Fields: []*FieldDef{
+			fd("item", named("Item")), fd("items", listOf(named("Item"))),
+			fd("itemById", named("Item"), arg("id", nonNull(named("ID")))),
+		}},
+		{Kind: fedlab.KObject, Name: "Item", Fields: []*FieldDef{
+			fd("id", nonNull(named("ID"))), fd("upc", nonNull(named("String"))), fd("price", named("Int")),
+			fd("label", named("String")), fd("stock", named("String"), argd("unit", named("String"), vstr("pcs"))),
+		}},
+	}}
+	bridge := func(name string) *Subgraph {
+		return &Subgraph{Name: name, Types: []*SubType{{Name: "Item", Keys: []string{"id", "upc"}, Fields: sf("id", "upc")}}}
+	}
+	return &fedlab.Config{Super: super, Subgraphs: []*Subgraph{
+		{Name: "catalog", Types: []*SubType{
+			{Name: "Query", Fields: sf("item", "items", "itemById")},
+			{Name: "Item", Keys: []string{"id"}, Fields: sf("id", "label")},
+		}},
+		bridge("bridge1"), bridge("bridge2"),
+		{Name: "pricing", Types: []*SubType{{Name: "Item", Keys: []string{"upc"}, Fields: sf("upc", "price", "stock")}}},
+	}}
+}
+
+func uniHOP(r *common.Rand) *fedlab.Universe {
+	n := 2 + r.Pick(3)
+	ik := func(i int) string { return fmt.Sprintf("i%d", i) }
+	u := &fedlab.Universe{}
+	var all []*FVal
+	for i := 0; i < n; i++ {
+		all = append(all, ref("Item", ik(i)))
+	}
+	u.Ents = append(u.Ents, &Entity{Type: "Query", Key: "", Fields: []FV{
+		{"item", ref("Item", ik(r.Pick(n)))}, {"items", lst(all...)}, {"itemById", lookup("Item", "id")},
+	}})
+	for i := 0; i < n; i++ {
+		price := num(10 + 3*i)
+		if r.Chance(1, 6) {
+			price = null()
+		}
+		u.Ents = append(u.Ents, &Entity{Type: "Item", Key: ik(i), Fields: []FV{
+			{"id", str(ik(i))}, {"upc", str("upc-" + ik(i))}, {"price", price}, {"label", str("l" + ik(i))}, {"stock", echo()},
+		}})
+	}
+	return u
+}
+
 // AllFixed lists the fixed configurations.
 func AllFixed() []*Fixed {
 	return []*Fixed{
 		{Name: "arp", Config: cfgARP(), Universe: uniARP},
 		{Name: "emp", Config: cfgEMP(), Universe: uniEMP},
 		{Name: "abc", Config: cfgABC(), Universe: uniABC},
+		{Name: "hop", Config: cfgHOP(), Universe: uniHOP},
 	}
 }
 
